@@ -319,7 +319,8 @@ func checkC01(c *C01Case) Result {
 		}
 		return false
 	}
-	if d := diffFired(gf, wf, isCount); d != "" {
+	asSet := func(id int) bool { r := rules[id]; return r != nil && (r.Multi || chainHasMulti(r)) }
+	if d := diffFiredSets(gf, wf, isCount, asSet); d != "" {
 		res.Fail = failf("%s\nengine fired %v, model fired %v\nconfig:\n%srequest: %s %s\n headers %q\n cookies %q\n post %q resp-headers %q", d,
 			firedIDs(got.Fired), firedIDs(want.Fired), conf, c.Req.Method, c.Req.URI(), c.Req.AllHeaders(), c.Req.Cookies, c.Req.Post, c.Req.RespHeaders)
 		return res
